@@ -708,6 +708,21 @@ class Impl:
         self.slots[int(dst)] = node_link_graph(d, attrs=at)
         return "ok"
 
+    def op_nlidattr(self, src):
+        """a node attribute whose NAME is the id key of the node-link format ('id' by default) - impl only"""
+        import copy
+        G2 = copy.deepcopy(self.G(src))
+        if not G2._node:
+            return "ok"
+        n0 = next(iter(G2._node))
+        G2._node[n0]["id"] = "five"
+        d = json.loads(json.dumps(node_link_data(G2)))
+        H = node_link_graph(d)
+        back = [n for n in H._node if n == n0 and type(n) is type(n0)]
+        if len(back) != 1 or len(H._node) != len(G2._node):
+            return "node-lost"
+        return "ok" if H._node[back[0]] == G2._node[n0] else "attribute-lost"
+
     def op_nld(self, s):
         G = self.G(s)
         d = node_link_data(G)
